@@ -300,9 +300,38 @@ def gen_switch(rng):
     return ops
 
 
+def threshold_only_case(rng):
+    """a breaker rule reloaded with ONLY its threshold changed, between values that round to the same whole number one way
+    and to different ones the other way (3/2 <-> 2, 5/2 <-> 3, 5/2 <-> 2 for error counts; 1/2 <-> 1/4 <-> 1 for ratios): the new
+    threshold decides from the next completion on (seed C11-f: rule equality compared the rounded-up count)"""
+    ops = ["clock"]
+    st = rng.choice(["c", "c", "r", "s"])
+    pairs = [("3/2", "2"), ("2", "3/2"), ("5/2", "3"), ("3", "5/2"), ("5/2", "2"), ("1", "3/2")] if st == "c" else [("1/2", "1/4"), ("1/4", "1/2"), ("1/2", "1")]
+    a, b = rng.choice(pairs)
+    body = "%s;1500;1;%d;%d;50;" % (st, rng.choice([1000, 2000]), rng.choice([1, 2]))
+    ops.append("br.load res=r rules=b;%s%s" % (body, a))
+    ops.append("adv ms=1")
+    eid = [0]
+
+    def one(err):
+        eid[0] += 1
+        ops.append("build e=%d res=r batch=1 dir=out" % eid[0])
+        ops.append("adv ms=%d" % rng.choice([1, 60]))
+        ops.append("exit e=%d err=%d" % (eid[0], err))
+        ops.append("br.state res=r")
+    if rng.random() < 0.5:
+        one(0)
+    # the reload, under the same id or another one, with an unrelated resource's rule alongside or not
+    extra = rng.choice(["", ",o/z1;c;1000;1;1000;1;50;2"])
+    ops.append("br.load res=r rules=%s;%s%s%s" % (rng.choice(["b", "b2"]), body, b, extra))
+    for _ in range(rng.randint(3, 5)):
+        one(1 if rng.random() < 0.8 else 0)
+    return ops
+
+
 def gen_own(rng, tier):
     n = 500 if tier == "quick" else 25000
-    return [gen_switch(rng) if i % 10 == 3 else gen_case(rng) if i % 5 else gen_multi(rng) for i in range(n)]
+    return [gen_switch(rng) if i % 10 == 3 else threshold_only_case(rng) if i % 10 == 6 else gen_case(rng) if i % 5 else gen_multi(rng) for i in range(n)]
 
 
 def gen(rng, tier):
